@@ -52,8 +52,10 @@ impl Condvar {
         // Release the lock
         mutex.release_lock();
 
-        // Disable the current thread
-        rt::park(location);
+        // Disable the current thread until it is notified. The thread waits on
+        // the condition variable itself and not in `park`: `Thread::unpark` is
+        // unrelated to condition variables and must not end the wait.
+        self.state.branch_acquire(true, location);
 
         // Acquire the lock again
         mutex.acquire_lock(location);
@@ -72,7 +74,7 @@ impl Condvar {
             trace!(state = ?self.state, ?thread, "Condvar::notify_one");
 
             if let Some(thread) = thread {
-                execution.threads.unpark(thread);
+                execution.threads.notify(thread);
             }
         })
     }
@@ -87,7 +89,7 @@ impl Condvar {
             trace!(state = ?self.state, threads = ?state.waiters, "Condvar::notify_all");
 
             for thread in state.waiters.drain(..) {
-                execution.threads.unpark(thread);
+                execution.threads.notify(thread);
             }
         })
     }
